@@ -36,6 +36,12 @@ var c20Plain = []c20Kind{
 	{"ErrorCode(401)", func() stun.Setter { return &stun.ErrorCodeAttribute{Code: 401, Reason: []byte("Unauthorized")} }, stun.AttrErrorCode},
 	{"ErrorCode(438,200B reason)", func() stun.Setter { return &stun.ErrorCodeAttribute{Code: 438, Reason: patBytes(200, 5)} }, stun.AttrErrorCode},
 	{"ErrorCode(500,763B reason)", func() stun.Setter { return &stun.ErrorCodeAttribute{Code: 500, Reason: patBytes(763, 6)} }, stun.AttrErrorCode},
+	{"MAPPED-ADDRESS(raw: IPv6 family, IPv4-mapped address)", func() stun.Setter {
+		return &setPtr{stun.RawAttribute{Type: stun.AttrMappedAddress, Value: append([]byte{0, 2, 0x12, 0x34}, net.ParseIP("192.0.2.9").To16()...)}}
+	}, stun.AttrMappedAddress},
+	{"ALTERNATE-SERVER(raw: IPv6 family, IPv4-mapped address)", func() stun.Setter {
+		return &setPtr{stun.RawAttribute{Type: stun.AttrAlternateServer, Value: append([]byte{0, 2, 0x12, 0x34}, net.ParseIP("192.0.2.10").To16()...)}}
+	}, stun.AttrAlternateServer},
 	{"UnknownAttributes(3)", func() stun.Setter {
 		u := stun.UnknownAttributes{stun.AttrRealm, stun.AttrNonce, stun.AttrUsername}
 		return &setPtr{u}
@@ -259,9 +265,6 @@ func init() {
 			rec()
 			// each kind repeated 16 times
 			for k := range c20Plain {
-				if k == 1 || k == 3 {
-					continue // 16 x 513/763 bytes is fine too but adds nothing
-				}
 				ks := make([]int, 16)
 				for i := range ks {
 					ks[i] = k
